@@ -269,6 +269,8 @@ def _c04_oracle(tr, origin, meta):
 def run_c04(ctx):
     n = _tier(ctx, 24, 300)
     jobs, metas = _jobs_from(scen.optin, 'C04', ctx['seed'], n)
+    j2, m2 = _jobs_from(scen.optin_alone, 'C04a', ctx['seed'], max(6, n // 3))
+    jobs, metas = jobs + j2, dict(metas, **m2)
     out = pc.run_scenarios('C04', ctx, jobs, [_with_meta(metas, _c04_oracle)], nontrivial=pc.received_kinds)
     return pc.make_result('C04', ctx, out, 'frames of histories with per-peer registration subsets and switches, marked/unmarked entities, excluded components, uuid/index assets, a late joiner; every received message (receive tap) and every replica is checked; non-trivial = distinct (scenario, receiver, kind, key) received')
 
@@ -434,6 +436,9 @@ def _c15_oracle(tr, origin):
             out.append(dict(signature='finished-event-repeated', origin=origin, what='peer %d observed InitialSyncFinished %d times for %d joins' % (p, fin, setups.get(p, 0))))
         if f.st.get('client') == 'C' and fin == 0 and f.net.get('status') == 'connected' and oracles.ended_quiescent(tr):
             out.append(dict(signature='finished-event-missing', origin=origin, what='peer %d is a connected client at quiescence and never observed InitialSyncFinished' % p))
+        if f.st.get('client') == 'C' and fin == 0 and f.net.get('status') == 'connected' and any(ev[0] == 'notquiescent' for ev in tr['events']):
+            # the drain waits for every pending initial sync: it gave up
+            out.append(dict(signature='finished-event-missing', origin=origin, what='peer %d is a connected client, the session was given 40 rounds to settle, and it never observed InitialSyncFinished' % p))
     return out
 
 
